@@ -176,7 +176,7 @@ pub fn run(r: &mut Run) {
               compaction / freezing, or an add follows a delete on the same list). Distinct by hash of the whole case."
         .into();
     r.assumptions.push("delete_node does not cascade (code + delete_node_edges doc): edges of a deleted node stay live and stay listed under the dead id; create_edge does not check endpoints".into());
-    r.assumptions.push("without backward adjacency, neighbors()/edges_from() with Direction::Incoming are not offered (config doc: 'turn off if you only traverse outgoing edges'): required to be empty, Both = Outgoing; edges_to / in_degree must still be exact (documented scan fallback)".into());
+    r.assumptions.push("without backward adjacency, neighbors()/edges_from() with Direction::Incoming are not offered (config doc: 'turn off if you only traverse outgoing edges'): may be empty or exact, Both = Outgoing + whatever Incoming reports; edges_to / in_degree must still be exact (documented scan fallback)".into());
     r.assumptions.push("'a scan for that value' = Value's own equality (IEEE: 0.0 == -0.0, NaN equals nothing), which is what the unindexed path of find_nodes_by_property evaluates".into());
     r.assumptions.push("min/max pruning is only required not to rule out definite matches: same-type Int/Float/String/Bool comparisons, NaN never matches, cross-type pairs never count".into());
     r.assumptions.push("ChunkedAdjacency::mark_deleted is only called for an existing, not yet deleted (src, edge) pair and edge ids are unique, as LpgStore does".into());
@@ -185,7 +185,7 @@ pub fn run(r: &mut Run) {
     let thorough = r.is_thorough();
     let cfg = if thorough { GenCfg { max_len: 400, max_burst: 2000 } } else { GenCfg { max_len: 400, max_burst: 300 } };
 
-    r.subcheck("store", r.cases(3_000, 300_000), move || store_case(cfg), check_store);
+    r.subcheck("store", r.cases(3_000, 200_000), move || store_case(cfg), check_store);
 
     let (alen, aburst) = if thorough { (120, 2000) } else { (80, 300) };
     r.subcheck("adjacency", r.cases(6_000, 400_000), move || adj::adj_case(alen, aburst), adj::check);
